@@ -434,6 +434,14 @@ def check_rdms(case):
              verbose=False, on_error='violation', sig='rdms:raises:' + case['method'])
     require(np.array_equal(before, data), 'data_2d modified', 'rdms:input-mutated')
     check_rows(sl, data, events_plain, events_arg, centers, neighbors, case['method'], 'rdms')
+    # the centres array stays the caller's: shifting it afterwards (e.g. to another index space)
+    # must not relabel the RDMs already computed
+    want_vi = [int(v) for v in centers]
+    centers += 1
+    got_vi = [int(v) for v in sl.rdm_descriptors['voxel_index']]
+    require(got_vi == want_vi, 'after the caller changed its centres array in place the result reports '
+            'voxel_index %s, it was computed for %s' % (got_vi[:6], want_vi[:6]),
+            'rdms:result-shares-centers')
 
 
 def classify_rdms(case):
